@@ -18,6 +18,10 @@ func (c *Cmd) runOSSpecific(cmdstr string, env []string) error {
 		return err
 	}
 
+	if len(cmdParts) == 0 {
+		return fmt.Errorf("command is empty")
+	}
+
 	for i, part := range cmdParts {
 		cmdParts[i] = expandEnv(part, c.Env)
 	}
